@@ -124,6 +124,50 @@ def assumption_substitution(assumptions, nz: Normalizer):
 
 
 # ------------------------------------------------------- position-wise compare
+def _ite_conditions(t, acc):
+    if not E.is_term(t):
+        return acc
+    if t[0] == "ite" and E.is_term(t[1]) and t[1][0] == "cmp":
+        if t[1] not in acc:
+            acc.append(t[1])
+    for x in t[1:]:
+        if E.is_term(x):
+            _ite_conditions(x, acc)
+        elif isinstance(x, tuple):
+            for y in x:
+                _ite_conditions(y, acc)
+    return acc
+
+
+def scalar_equal(a, b, nz: Normalizer, max_conds: int = 4):
+    """Equality of two scalar terms; conditionals on comparisons are decided by case
+    analysis (both terms must agree under every truth assignment of their conditions).
+    Returns (equal?, normalizer used for the first differing case, rf_a, rf_b)."""
+    conds = [c for c in _ite_conditions(b, _ite_conditions(a, [])) if nz.truth_of(c) is None]
+    if not conds:
+        ra, rb = nz.rf(a), nz.rf(b)
+        return ra.equals(rb), nz, ra, rb
+    if len(conds) > max_conds:
+        raise AnalysisError(f"more than {max_conds} independent conditions in one term")
+    import itertools
+
+    last = None
+    for assign in itertools.product((True, False), repeat=len(conds)):
+        n2 = Normalizer(nz.facts.clone())
+        for op, d, tv in nz.assumed:
+            pass
+        for term, tv in list(getattr(nz, "_assumed_terms", [])):
+            n2.assume(term, tv)
+        for c, tv in zip(conds, assign):
+            if n2.truth_of(c) is None:
+                n2.assume(c, tv)
+        ra, rb = n2.rf(a), n2.rf(b)
+        last = (n2, ra, rb)
+        if not ra.equals(rb):
+            return False, n2, ra, rb
+    return True, last[0], last[1], last[2]
+
+
 def compare(code, spec, env: E.Env, nz: Normalizer, mapping: Optional[dict] = None):
     """Returns a list of (position, code_text, spec_text) mismatches; raises
     E.ShapeError if shapes differ."""
@@ -135,10 +179,9 @@ def compare(code, spec, env: E.Env, nz: Normalizer, mapping: Optional[dict] = No
         return [("shape", f"shape {sc}", f"shape {ss}")]
     out = []
     for pos in E.positions(sc, env):
-        a = nz.rf(E.at(code, pos, env))
-        b = nz.rf(E.at(spec, pos, env))
-        if not a.equals(b):
-            out.append((E._fpos(pos), nz.show(a, ), nz.show(b)))
+        eq, n2, a, b = scalar_equal(E.at(code, pos, env), E.at(spec, pos, env), nz)
+        if not eq:
+            out.append((E._fpos(pos), n2.show(a), n2.show(b)))
     return out
 
 
@@ -289,3 +332,14 @@ def leq(a, b, nz: Normalizer) -> bool:
 def bounded_by(t, target, nz: Normalizer) -> bool:
     tr = nz.rf(target)
     return any(leq(u, tr, nz) for u in upper_bounds(t, nz))
+
+
+def apply_assumptions(nz: Normalizer, assumptions, env: E.Env, mapping=None) -> None:
+    """path assumptions on symbolic comparisons select the matching branch of ite terms"""
+    for term, choice, _ in assumptions:
+        if E.is_term(term) and term[0] == "cmp":
+            try:
+                t = subst(term, mapping or {})
+                nz.assume(E.at(t, None, env), choice)
+            except (AnalysisError, E.ShapeError):
+                pass
